@@ -568,7 +568,7 @@ func (g *gen) stepRandom() {
 	if focus == "handshake" && g.r.Chance(3, 5) && g.stepHandshake() {
 		return
 	}
-	if focus == "restart" && g.nsteps > 8 && g.r.Chance(1, 14) {
+	if (focus == "restart" || focus == "routing") && g.nsteps > 8 && g.r.Chance(1, 14) {
 		// graceful restart: drop every connection first, restart, connect again and look at what came back
 		for _, c := range append([]int{}, g.conns...) {
 			g.do(fmt.Sprintf("DROP %d", c))
@@ -641,6 +641,10 @@ func (g *gen) stepRandom() {
 		// durable and transient queues and exchanges, bindings, persistent and transient publishes, deletes, purges
 		k = []int{10, 10, 100, 100, 130, 130, 180, 200, 200, 200, 200, 600, 700, 890, 920}[g.r.Intn(15)]
 	}
+	if focus == "routing" && g.r.Chance(3, 4) {
+		// the topology and its use: declare, bind, unbind, delete, publish through every kind of exchange, get
+		k = []int{10, 100, 100, 130, 130, 130, 180, 180, 200, 200, 200, 200, 600, 600, 920}[g.r.Intn(15)]
+	}
 	if focus == "exclusive" && g.r.Chance(3, 5) {
 		// everything that names a queue: declare (also passive), bind, unbind, purge, delete, consume, get, publish
 		k = []int{10, 10, 10, 130, 180, 200, 200, 480, 480, 600, 600, 890, 920}[g.r.Intn(13)]
@@ -703,7 +707,7 @@ func (g *gen) stepRandom() {
 			pas = g.b(1, 5)
 		}
 		dur := g.b(1, 3)
-		if focus == "restart" {
+		if focus == "restart" || focus == "routing" {
 			dur = g.b(1, 2)
 		}
 		g.do(fmt.Sprintf("QD %d %d %s %s %s %s %s %s", c, h, name, dur, excl, g.b(1, 7), pas, g.b(1, 12)))
@@ -714,7 +718,7 @@ func (g *gen) stepRandom() {
 			name = "amq.x"
 		}
 		xdur := g.b(1, 3)
-		if focus == "restart" {
+		if focus == "restart" || focus == "routing" {
 			xdur = g.b(1, 2)
 		}
 		g.do(fmt.Sprintf("XD %d %d %s %s %s %s %s %s %s", c, h, name, ty, xdur, g.b(1, 8), g.b(1, 8), g.b(1, 8), g.b(1, 10)))
@@ -747,7 +751,7 @@ func (g *gen) stepRandom() {
 			lens = fmt.Sprintf("%d+%d", 1+g.r.Intn(5), 1+g.r.Intn(5))
 		}
 		pers := g.b(1, 3)
-		if focus == "restart" {
+		if focus == "restart" || focus == "routing" {
 			pers = g.b(1, 2)
 		}
 		g.do(fmt.Sprintf("PUB %d %d %s %s %s %s %s %d %s", c, h, ex, key, g.b(1, 3), g.b(1, 40), pers, g.uid, lens))
@@ -971,7 +975,7 @@ func genSession(seed uint64, idx int, steps int, kind string, work string, settl
 	if focus == "exclusive" {
 		qnames = []string{"a", "a.b", "a.b.c", "ab", "a_b"}
 	}
-	if focus == "restart" {
+	if focus == "restart" || focus == "routing" {
 		// the buntdb wrapper cannot reload messages at all (finding F23): restart sessions run on badger
 		cfg.Engine = "badger"
 		cfg.Dir = filepath.Join(work, fmt.Sprintf("badger-%d-%d-%d", os.Getpid(), seed, idx))
